@@ -364,7 +364,7 @@ def residuals(ctx: Ctx, rep: Report, scns: list[dict]) -> None:
     if len(pick) > cap:
         by = {}
         for s in pick:
-            by.setdefault((s["sc"]["shape"], s["sc"]["n"], writes_init(s)), []).append(s)
+            by.setdefault((s["sc"]["shape"], s["sc"]["n"], writes_init(s), s["sc"]["fitk"]), []).append(s)
         pick = []
         share = cap // len(by)
         for k in sorted(by):
@@ -609,7 +609,7 @@ def fit_cases(ctx: Ctx, scns: list[dict]) -> list[dict]:
               if not any(src in ("p0", "p0y0") and fr(x) == 0 for src, x in zip(s["sc"]["srcs"], s["sc"]["x0c"]))]
     by: dict = {}
     for s in usable:
-        by.setdefault(s["sc"]["shape"], {}).setdefault(writes_init(s), []).append(s)
+        by.setdefault(s["sc"]["shape"], {}).setdefault((writes_init(s), s["sc"]["fitk"]), []).append(s)
     per_shape = 20 if ctx.quick else 160
     cases = []
     for shape in sorted(by):
@@ -628,7 +628,7 @@ def fit_cases(ctx: Ctx, scns: list[dict]) -> list[dict]:
             cases.append({"scn": slim(s), "loss": loss, "scaled": bool(scaled), "method": method,
                           "copy": j % 7 != 3, "id": len(cases), "reverse": j % 2 == 0})     # p0 keys not alphabetical
     # the unlawful losses may still be used for fitting: what is reported must be honest all the same
-    extra = [s for s in by.get("ss", {}).get("none", []) if s["generated"]][:4 if ctx.quick else 24]
+    extra = [s for s in by.get("ss", {}).get(("none", True), []) if s["generated"]][:4 if ctx.quick else 24]
     for j, s in enumerate(extra):
         cases.append({"scn": slim(s), "loss": ["mean", "cosine_similarity"][j % 2], "scaled": False, "method": "L-BFGS-B",
                       "copy": True, "id": len(cases), "bounded": True})
